@@ -3183,3 +3183,26 @@ T("C13", "twin-record-renamed", JDS,
   "                for record in generate_records_from_compiled_jq(\n                    data, self.compiled_jq\n                ):\n                    try:\n                        yield OTelEvent(**record)",
   "                for record in generate_records_from_compiled_jq(\n                    data, self.compiled_jq\n                ):\n                    fields = record\n                    try:\n                        yield OTelEvent(**fields)",
   "an alias of the record")
+
+# ---- shared obligations (seeds C11-y, C15-y): every mutant of the lending
+# rule is a mutant of the borrowing rule, every twin of the lender a twin
+from .selftest import VARIANTS as _V, Variant as _Var
+for _lp, _lr, _bp, _br in (("C10", "R10.5", "C11", "R11.10"),
+                           ("C11", "R11.1", "C15", "R15.9")):
+    _have = {v.vid for v in _V if v.prop == _bp}
+    for _v in list(_V):
+        if _v.prop != _lp or _v.vid in _have:
+            continue
+        if _v.kind == "mutant" and _lr in _v.expect:
+            _V.append(_Var(_bp, _v.vid, "mutant", _v.desc, list(_v.edits),
+                           frozenset({_br})))
+        elif _v.kind == "twin" and _v.transform is None:
+            _V.append(_Var(_bp, _v.vid, "twin", _v.desc, list(_v.edits)))
+M("C11", "link-queued-after-the-flush", SQL,
+  "        self.add_node_relations(otel_event)\n\n        if len(self.node_models_to_save) >= self.batch_size:\n            self.commit_batched_unique_data_to_database()",
+  "        if len(self.node_models_to_save) >= self.batch_size:\n            self.commit_batched_unique_data_to_database()\n        self.add_node_relations(otel_event)",
+  "R11.10", "the link of the span that fills a batch travels with the next batch and is dropped by the duplicate filter (seed C11-y)")
+M("C15", "no-rename-on-the-no-ingest-arm", "otel_to_pv/otel_to_pv.py",
+  "    data_holder.update_job_names_by_root_span()\n",
+  "    if ingest_data:\n        data_holder.update_job_names_by_root_span()\n",
+  "R15.9", "a store left half-processed by an aborted run is never renamed by later --no-ingest runs (seed C15-y)")
